@@ -678,6 +678,39 @@ pub fn run(ctx: Ctx) -> ! {
     let box2_ok: u64 = per_shape2.iter().map(|x| x.1).sum();
     eprintln!("C16 box2 shapes={} cases={} ok={} t={:.1}s", shapes2.len(), box2_cases, box2_ok, ctx.elapsed_s());
 
+    // ---- box 2b: prepacked operands that span several blocks in BOTH directions ----
+    // (a partial last depth block together with a second row / column block: the offset
+    // arithmetic of PackedMatrix::block has one term per direction)
+    let shapes2b: Vec<(usize, usize, usize)> = if thorough {
+        vec![(130, 300, 5), (5, 300, 1030), (130, 600, 1030), (200, 513, 2050), (67, 257, 129), (300, 258, 3), (3, 770, 2050)]
+    } else {
+        vec![(130, 300, 5), (5, 300, 1030), (130, 513, 1030), (67, 257, 2050)]
+    };
+    let per_shape2b = vp_core::par::map(shapes2b.len() * 2, |si| {
+        let (m, k, n) = shapes2b[si / 2];
+        let threads = if si % 2 == 0 { 1 } else { 4 };
+        let s = ref_product(m, k, n);
+        let execs = executors();
+        let pool = rten::ThreadPool::with_num_threads(threads);
+        let (mut cases, mut ok) = (0u64, 0u64);
+        for exec in &execs {
+            for (a_packed, b_form) in [(true, "unpacked"), (false, "prepacked"), (true, "prepacked")] {
+                for (alpha, beta, entry) in [(1.0f32, 0.0f32, "gemm_uninit"), (2.0, 1.0, "gemm")] {
+                    let c = Case { kernel: exec.kernel_name().to_string(), threads, entry, m, k, n, a_lay: Lay::Row, b_lay: Lay::Row, a_packed, b_form, alpha, beta, bias: Bias::None };
+                    let o = pool.run(|| run_case(exec, &c, &s));
+                    cases += 1;
+                    if report(&ctx, &c, o) {
+                        ok += 1;
+                    }
+                }
+            }
+        }
+        (cases, ok)
+    });
+    let box2b_cases: u64 = per_shape2b.iter().map(|x| x.0).sum();
+    let box2b_ok: u64 = per_shape2b.iter().map(|x| x.1).sum();
+    eprintln!("C16 box2b shapes={} cases={} ok={} t={:.1}s", shapes2b.len(), box2b_cases, box2b_ok, ctx.elapsed_s());
+
     // ---- im2col and batched ----
     let mut c3 = Counts::default();
     im2col_cases(&ctx, &execs, &mut c3);
@@ -743,8 +776,8 @@ pub fn run(ctx: Ctx) -> ! {
     let hist_ok: u64 = hist.iter().map(|x| x.1).sum();
     eprintln!("C16 history cases={} ok={} t={:.1}s", hist_cases, hist_ok, ctx.elapsed_s());
 
-    let total = box1_cases + box2_cases + c3.cases + c4.cases + hist_cases;
-    let total_ok = box1_ok + box2_ok + c3.ok + c4.ok + hist_ok;
+    let total = box1_cases + box2_cases + box2b_cases + c3.cases + c4.cases + hist_cases;
+    let total_ok = box1_ok + box2_ok + box2b_ok + c3.ok + c4.ok + hist_ok;
     if total_ok < total / 2 || box1_ok == 0 {
         ctx.machinery("C16 vacuous: most cases did not reach the oracle");
     }
@@ -752,7 +785,7 @@ pub fn run(ctx: Ctx) -> ! {
     let coverage = json!({
         "evaluations": total,
         "distinct_nontrivial": total_ok.saturating_sub(box1_cases - box1_nonempty),
-        "rule": "cases are distinct by construction; non-trivial = correct cases minus the box-1 cases with an empty product (m, n or k = 0); box1: every (m,n,k) of the size lists x every kernel x A,B layouts (all 16 combinations while m*k*n <= limit, 4 diagonal combinations above) x {1 thread, 4 threads for multi-block shapes}; box2: 64-80 shapes x alpha x beta x bias x {gemm,gemm_uninit} x A/B {unpacked,prepacked} (+ all B layouts on the gemv path); im2col geometries; batched incl. mismatched members; 3 history orders per kernel on one thread",
+        "rule": "cases are distinct by construction; non-trivial = correct cases minus the box-1 cases with an empty product (m, n or k = 0); box1: every (m,n,k) of the size lists x every kernel x A,B layouts (all 16 combinations while m*k*n <= limit, 4 diagonal combinations above) x {1 thread, 4 threads for multi-block shapes}; box2: 64-80 shapes x alpha x beta x bias x {gemm,gemm_uninit} x A/B {unpacked,prepacked} (+ all B layouts on the gemv path); box2b: prepacked A / B / both for shapes with a partial last depth block AND several row or column blocks (M up to 200, K up to 770, N up to 2050) x 1 and 4 threads; im2col geometries; batched incl. mismatched members; 3 history orders per kernel on one thread",
         "exhaustive": true,
         "axes": {
             "kernels": kernel_names,
@@ -764,7 +797,7 @@ pub fn run(ctx: Ctx) -> ! {
             "im2col_geometries": 4, "batch_sizes": [0, 1, 3],
             "history_orders": ["ascending", "descending", "alternating"], "history_shapes": hist_shapes.len(),
         },
-        "cases": {"box1": box1_cases, "box2": box2_cases, "im2col": c3.cases, "batched": c4.cases, "history": hist_cases},
+        "cases": {"box1": box1_cases, "box2": box2_cases, "box2b_prepacked_multi_block": box2b_cases, "im2col": c3.cases, "batched": c4.cases, "history": hist_cases},
         "correct": total_ok,
         "samples": samples.take(),
     });
